@@ -716,3 +716,14 @@ def a_solver_found_stopped_is_finalized(ctx):
         return
     ctx.need(checked >= 2, 'Step: expected >= 2 feasible returning paths, found %d' % checked)
     ctx.ok('AbstractSolver.Step#stopped-is-finalized', '%d feasible returning paths: terminated => Finalize() since the last _Step' % checked, f, f.node)
+
+
+@rule('C04.p', min_instances=4)
+def a_replaced_evaluation_monitor_receives_the_evaluations(ctx):
+    """the decorated objective captures the evaluation monitor when it is built (wrap_function binds it): a method that replaces self._evalmon must invalidate the objective on every path, otherwise the monitor installed by SetEvaluationMonitor after the first step never receives another evaluation (staleness analysis shared with C01.i / C02.c / C03.c; repair 9e75e84)"""
+    from . import invalidate
+    from .c01 import CONCRETE_SOLVERS
+    for key, anchor in CONCRETE_SOLVERS.items():
+        cls = ctx.cls(anchor)
+        n, decoin = invalidate.check_class(ctx, key, cls, only_attrs={'_evalmon'}, label_prefix=key + ':')
+        ctx.need('_evalmon' in decoin, '%s: the evaluation monitor is not captured by the decorator?' % cls.name)
